@@ -109,6 +109,12 @@ func c01History(t datarep.Table, idx int, rng *rand.Rand) (int, []evid.Div, erro
 	// its statuses BEFORE it reads the message, and then reads it slowly)
 	perRcpt := lmtp && (idx/6)%2 == 1
 	cfg := drv.Cfg{LMTP: lmtp, LMTPBackend: perRcpt, MaxLine: 200, Binarymime: true, TLSAvail: mode >= 1, ImplicitTLS: mode == 2}
+	if (idx/12)%2 == 1 {
+		// a size limit every single message fits in (the longest stream has 729
+		// octets) but the messages of one connection together do not: the limit
+		// is per message
+		cfg.MaxBytes = 800
+	}
 	srv := drv.Start(cfg)
 	defer srv.Stop()
 	cn, err := srv.Dial()
@@ -226,7 +232,7 @@ func c01History(t datarep.Table, idx int, rng *rand.Rand) (int, []evid.Div, erro
 			return nmsg, divs, err
 		}
 		rp := map[string]interface{}{"engine": "c01-history", "index": idx, "history": hist, "message": wireMsg, "buf": plan.Buf}
-		ctx := fmt.Sprintf("message %d of a connection (mode %d, lmtp %v) after %v, stream %q, backend buffer %d", m, mode, lmtp, hist, wireMsg, plan.Buf)
+		ctx := fmt.Sprintf("message %d of a connection (mode %d, lmtp %v, size limit %d) after %v, stream %q, backend buffer %d", m, mode, lmtp, cfg.MaxBytes, hist, wireMsg, plan.Buf)
 		idle := cn.WaitIdle()
 		for tries := 0; !idle && tries < 5 && be.InFlight() > 0 && !drv.TooManyHangs(); tries++ {
 			// a backend reading a long message an octet at a time on a loaded machine is
